@@ -956,7 +956,6 @@ func c13DeepOps(a int, wide bool) []c13Op {
 		{kind: c13kAddBal, a: a, v: 1},
 		{kind: c13kSubBal, a: a, v: 1},
 		{kind: c13kSetNonce, a: a, v: 1},
-		{kind: c13kSetCode, a: a, v: 2},
 		{kind: c13kSetState, a: a, s: 0, v: 1},
 		{kind: c13kSetState, a: a, s: 0, v: 0},
 		{kind: c13kCreateContract, a: a},
@@ -964,6 +963,7 @@ func c13DeepOps(a int, wide bool) []c13Op {
 	}
 	if wide {
 		ops = append(ops,
+			c13Op{kind: c13kSetCode, a: a, v: 2},
 			c13Op{kind: c13kSetNonce, a: a, v: 0},
 			c13Op{kind: c13kSetCode, a: a, v: 0},
 			c13Op{kind: c13kSetState, a: a, s: 1, v: 0},
@@ -1051,39 +1051,42 @@ func TestVerif_C13(t *testing.T) {
 		pre158, berlin, amsterdam := &c13RuleSets[0], &c13RuleSets[1], &c13RuleSets[2]
 		if r.Quick() {
 			r.Bound("acct_depth", 4)
+			r.Bound("acct_depth_other_rules", 3)
 			r.Bound("deep_depth", 5)
 			r.Bound("aux_depth", 4)
-			// breadth: two accounts + RIPEMD, all account operations
-			c13Explore(r, "acct", pre158, "contract", c13AcctOps(false), 4)
-			c13Explore(r, "acct", berlin, "contract", c13AcctOps(false), 4)
-			c13Explore(r, "acct", amsterdam, "funded", c13AcctOps(false), 4)
+			// refund, logs, transient storage, access list under snapshots
+			c13Explore(r, "aux", berlin, "contract", c13AuxOps(), 4)
 			// depth: one account, longer histories (journal counters, snapshot stacks, several transactions)
 			c13Explore(r, "deepB", berlin, "contract", c13DeepOps(c13B, false), 5)
 			c13Explore(r, "deepA", amsterdam, "funded", c13DeepOps(c13A, false), 5)
-			// refund, logs, transient storage, access list under snapshots
-			c13Explore(r, "aux", berlin, "contract", c13AuxOps(), 4)
+			// breadth: two accounts + RIPEMD, all account operations
+			c13Explore(r, "acct", pre158, "contract", c13AcctOps(false), 3)
+			c13Explore(r, "acct", amsterdam, "funded", c13AcctOps(false), 3)
+			c13Explore(r, "acct", berlin, "contract", c13AcctOps(false), 4)
 			return
 		}
 		r.Bound("acct_depth", 5)
 		r.Bound("acct_wide_depth", 4)
-		r.Bound("deep_depth", 7)
-		r.Bound("aux_depth", 6)
-		for _, ru := range []*c13Rules{pre158, berlin, amsterdam} {
+		r.Bound("deep_depth", 6)
+		r.Bound("deep_wide_depth", 5)
+		r.Bound("aux_depth", 5)
+		all := []*c13Rules{berlin, amsterdam, pre158}
+		// cheapest and deepest first, so that a run cut short by the budget has covered the long histories
+		for _, ru := range all {
+			c13Explore(r, "deepB", ru, "contract", c13DeepOps(c13B, false), 6)
+			c13Explore(r, "deepA", ru, "contract", c13DeepOps(c13A, false), 6)
+			c13Explore(r, "deepA", ru, "funded", c13DeepOps(c13A, false), 6)
+			c13Explore(r, "aux", ru, "contract", c13AuxOps(), 5)
+		}
+		for _, ru := range all {
+			c13Explore(r, "deepBwide", ru, "contract", c13DeepOps(c13B, true), 5)
+			c13Explore(r, "deepAwide", ru, "funded", c13DeepOps(c13A, true), 5)
 			for _, start := range []string{"contract", "funded", "empty"} {
 				c13Explore(r, "acctwide", ru, start, c13AcctOps(true), 4)
 			}
-			c13Explore(r, "aux", ru, "contract", c13AuxOps(), 6)
-			c13Explore(r, "deepB", ru, "contract", c13DeepOps(c13B, false), 7)
-			c13Explore(r, "deepA", ru, "contract", c13DeepOps(c13A, false), 7)
-			c13Explore(r, "deepA", ru, "funded", c13DeepOps(c13A, false), 7)
-			c13Explore(r, "deepBwide", ru, "contract", c13DeepOps(c13B, true), 5)
-			c13Explore(r, "deepAwide", ru, "funded", c13DeepOps(c13A, true), 5)
 		}
-		for _, ru := range []*c13Rules{pre158, berlin, amsterdam} {
+		for _, ru := range all {
 			for _, start := range []string{"contract", "funded"} {
-				if r.Expired() {
-					return
-				}
 				c13Explore(r, "acct", ru, start, c13AcctOps(false), 5)
 			}
 		}
